@@ -159,3 +159,14 @@ Example App_nonvacuous :
                  = Some (lit "404 Not Found", [(lit "Content-Length", cl);
                                                (lit "Content-Type", lit "text/html; charset=UTF-8")])).
 Proof. vm_compute. repeat split; eexists; reflexivity. Qed.
+
+(* config.domain_map: routing, the route hooks and the handler see PATH_INFO with the mapped
+   application name prefixed — the application model on the prefixed environ. *)
+Theorem App_domain_map_routes_prefixed_path :
+  forall filt A e n,
+    en_path (with_app_name (Some n) e) = 47%N :: n ++ en_path e
+    /\ route_request filt A (with_app_name (Some n) e)
+       = Router.to_route filt (ap_router A) (Router.req_path (47%N :: n ++ en_path e)) (en_method e)
+    /\ with_app_name None e = e.
+Proof. intros. repeat split. Qed.
+Print Assumptions App_domain_map_routes_prefixed_path.
